@@ -104,6 +104,7 @@ def check_property(prop, tier, seed, jobs=None, quiet=False):
     covers = {}
     interpreted = set()
     bounded = []
+    cvc5_tally = {}
     for o in outs:
         if o["error"]:
             faults.append("worker crash in %s split=%s:\n%s" % (o["unit"], o["split"], o["error"]))
@@ -121,6 +122,10 @@ def check_property(prop, tier, seed, jobs=None, quiet=False):
             covers[k] = covers.get(k, 0) + n
         interpreted.update(o["interpreted"])
         bounded.extend(o.get("bounded", []))
+        for nm, verdict in o.get("cvc5", []):
+            cvc5_tally[verdict] = cvc5_tally.get(verdict, 0) + 1
+            if verdict == "sat":
+                faults.append("solver disagreement on %s: z3 unsat, cvc5 sat" % nm)
         u = unit_by_cls[o["unit"]]
         for r in o["records"]:
             if prop in u.obligations[r["name"]]["props"]:
@@ -161,6 +166,7 @@ def check_property(prop, tier, seed, jobs=None, quiet=False):
                 if r["status"] == "failed" and v == "unsat":
                     faults.append("solver disagreement on %s: z3 sat, cvc5 unsat" % r["name"])
         by_backend["cvc5-1.0.3(recheck of non-discharged)"] = n_cvc5
+        by_backend["cvc5-1.0.3(independent recheck of sampled discharged VCs: verdict tally)"] = cvc5_tally
 
     violations = []
     seen_keys = set()
